@@ -145,7 +145,7 @@ pub fn run(tier: Tier) -> i32 {
     let lv = level(tier);
 
     // (a) kernel, complete small scope
-    let nmax: i128 = if tier.thorough() { 6000 } else { 700 };
+    let nmax: i128 = if tier.thorough() { 6000 } else { 2000 };
     let dmax: i128 = 40;
     let ns: Vec<i128> = (-nmax..=nmax).collect();
     for mode in ALL_MODES {
@@ -196,7 +196,7 @@ pub fn run(tier: Tier) -> i32 {
     run.stage("kernel-large", json!({"divisors":divisors.len(),"quotients":quots.len(),"boundaries":"Q*d+{-1,0,1}, Q*d+d/2+{-1,0,1,2}, 4 sign combinations"}));
 
     // (b) round / checked_round: alphabet x all 256 n x 8 modes
-    let k = alpha::coeffs(1, if tier.thorough() { 50 } else { 20 }, lv);
+    let k = alpha::coeffs(1, if tier.thorough() { 50 } else { 20 }, if tier.thorough() { Level::Thorough } else { Level::Mid });
     let mut ops: Vec<(i128, u8)> = Vec::new();
     for &a in &k { for p in 0..=18u8 { ops.push((a, p)); } }
     for mode in ALL_MODES {
@@ -209,7 +209,7 @@ pub fn run(tier: Tier) -> i32 {
     run.stage("round-alphabet", json!({"coefficients":k.len(),"scales":19,"n":"all 256 i8 values","modes":8}));
 
     // (b2) complete small scope
-    let amax: i128 = if tier.thorough() { 20000 } else { 1200 };
+    let amax: i128 = if tier.thorough() { 20000 } else { 4000 };
     let small: Vec<i128> = (-amax..=amax).collect();
     for mode in ALL_MODES {
         run.par_for(&small, || RoundingMode::set_default(mode), |&a, l| {
